@@ -297,6 +297,11 @@ def units(tier):
             insts.append(compound_inst(op, T_, 'int', 'int', tier))
         insts.append(compound_inst('+', V_, 'long', 'int', tier))
         insts.append(compound_inst('-', V_, 'short', 'short', tier))
+        # every operator on a cell in sandbox memory (one macro body today; a per-operator shortcut on tainted_volatile would not share it)
+        for op in ARITH + SHIFT:
+            if op not in ('+', '-'):
+                ta_, tb_ = ('short', 'short') if op in ('*', '/', '%') else (('unsigned long', 'unsigned long') if op in ('|', '>>') else ('long', 'long'))
+                insts.append(compound_inst(op, V_, ta_, tb_, tier))
         for form in ['preinc', 'predec', 'postinc', 'postdec']:
             insts.append(incdec_inst(form, T_, 'int', tier))
         insts.append(incdec_inst('postdec', T_, 'unsigned char', tier))
@@ -331,6 +336,9 @@ def units(tier):
                 if TY[t][1] >= 32:
                     insts.append(compound_inst(op, T_, t, t, tier))
             insts.append(compound_inst('+', V_, t, t, tier))
+            for op in ARITH + SHIFT:
+                if op not in ('+', '-') and not (op in ('*', '/', '%') and TY[t][1] >= 64):
+                    insts.append(compound_inst(op, V_, t, t, tier))
             insts.append(compound_inst('-', V_, t, 'int' if TY[t][1] >= 32 else t, tier)) if TY[t][1] >= 32 else None
     out = []
     for i in range(0, len(insts), 120):
